@@ -1333,6 +1333,9 @@ pub(crate) fn derive_struct_diff_enum(enum_: &Enum) -> TokenStream {
         panic!("Enum variants may not be skipped");
     };
 
+    // inside the impl `Self::Diff` is ambiguous for an enum with a variant named `Diff` (or `DiffRef`): the patterns and
+    // constructors name the enum and the diff types themselves
+    let owner = &enum_.name;
     enum_.variants.iter().enumerate().for_each(|(_, field)| {
         let field_name = field.field_name.as_ref().unwrap();
         let ty = &field.ty;
@@ -1382,38 +1385,48 @@ pub(crate) fn derive_struct_diff_enum(enum_: &Enum) -> TokenStream {
                     if matches!(ty.ident, Category::AnonymousStruct { .. }) {
                         l!(
                             apply_single_body,
-                            "variant @ Self::{}{{..}} => *self = variant,",
+                            "variant @ {}::{}{{..}} => *self = variant,",
+                            owner,
                             field_name
                         );
 
                         l!(
                             diff_body,
-                            "variant @ Self::{}{{..}} => Self::Diff::Replace(variant),",
-                            field_name
+                            "variant @ {}::{}{{..}} => {}::Replace(variant),",
+                            owner,
+                            field_name,
+                            enum_name
                         );
 
                         l!(
                             diff_body_ref,
-                            "variant @ Self::{}{{..}} => Self::DiffRef::Replace(&variant),",
-                            field_name
+                            "variant @ {}::{}{{..}} => {}Ref::Replace(&variant),",
+                            owner,
+                            field_name,
+                            enum_name
                         );
                     } else {
                         l!(
                             apply_single_body,
-                            "variant @ Self::{}(..) => *self = variant,",
+                            "variant @ {}::{}(..) => *self = variant,",
+                            owner,
                             field_name
                         );
 
                         l!(
                             diff_body,
-                            "variant @ Self::{}(..) => Self::Diff::Replace(variant),",
-                            field_name
+                            "variant @ {}::{}(..) => {}::Replace(variant),",
+                            owner,
+                            field_name,
+                            enum_name
                         );
 
                         l!(
                             diff_body_ref,
-                            "\nvariant @ Self::{}{{..}} => Self::DiffRef::Replace(&variant),",
-                            field_name
+                            "\nvariant @ {}::{}{{..}} => {}Ref::Replace(&variant),",
+                            owner,
+                            field_name,
+                            enum_name
                         );
                     }
                 }
@@ -1428,19 +1441,24 @@ pub(crate) fn derive_struct_diff_enum(enum_: &Enum) -> TokenStream {
 
             l!(
                 apply_single_body,
-                "variant @ Self::{} => *self = variant,",
+                "variant @ {}::{} => *self = variant,",
+                owner,
                 field_name
             );
 
             l!(
                 diff_body,
-                "variant @ Self::{} => Self::Diff::Replace(variant),",
-                field_name
+                "variant @ {}::{} => {}::Replace(variant),",
+                owner,
+                field_name,
+                enum_name
             );
             l!(
                 diff_body_ref,
-                "variant @ Self::{} => Self::DiffRef::Replace(&variant),",
-                field_name
+                "variant @ {}::{} => {}Ref::Replace(&variant),",
+                owner,
+                field_name,
+                enum_name
             );
         };
     });
@@ -1540,7 +1558,7 @@ pub(crate) fn derive_struct_diff_enum(enum_: &Enum) -> TokenStream {
                 type DiffRef<'__diff_target> = {enum_name}Ref{ref_enum_impl_generics} where
                     {diff_ref_type_where_bounds};
 
-                fn diff(&self, updated: &Self) -> Vec<Self::Diff> {{
+                fn diff(&self, updated: &Self) -> Vec<<Self as StructDiff>::Diff> {{
                     if self == updated {{
                         vec![]
                     }} else {{
@@ -1550,7 +1568,7 @@ pub(crate) fn derive_struct_diff_enum(enum_: &Enum) -> TokenStream {
                     }}
                 }}
 
-                fn diff_ref<'__diff_target>(&'__diff_target self, updated: &'__diff_target Self) -> Vec<Self::DiffRef<'__diff_target>> {{
+                fn diff_ref<'__diff_target>(&'__diff_target self, updated: &'__diff_target Self) -> Vec<<Self as StructDiff>::DiffRef<'__diff_target>> {{
                     if self == updated {{
                         vec![]
                     }} else {{
@@ -1561,9 +1579,9 @@ pub(crate) fn derive_struct_diff_enum(enum_: &Enum) -> TokenStream {
                 }}
 
                 #[inline(always)]
-                fn apply_single(&mut self, diff: Self::Diff) {{
+                fn apply_single(&mut self, diff: <Self as StructDiff>::Diff) {{
                     match diff {{
-                        Self::Diff::Replace(diff) => match diff {{
+                        {enum_name}::Replace(diff) => match diff {{
                             {apply_single_body}
                         }}
                     }}
